@@ -296,7 +296,11 @@ class XlsObject:
         assert isinstance(origins, dict)
         if range_key is None:
             # return description of all the source cells
-            cells_coords = sorted(origins.values())
+            # sort by column position: 'Z2' goes before 'AA2'
+            cells_coords = sorted(
+                origins.values(),
+                key=lambda coord: (
+                    len(coord.rstrip('0123456789')), coord.rstrip('0123456789')))
             if len(cells_coords) == 0:
                 cells_range_descr = "<skipped column>"
             elif len(cells_coords) == 1:
